@@ -41,6 +41,12 @@ fn fix_ident_conflicts(sig: &mut syn::Signature) -> ParamStatus {
             syn::FnArg::Receiver(_) => ParamStatus::Ok,
             syn::FnArg::Typed(pat_type) => match pat_type.pat.as_mut() {
                 syn::Pat::Ident(param_ident) => {
+                    // `ref`/`mut`/`@` bindings are patterns, which are not allowed in
+                    // trait method declarations; the generated method only forwards the value.
+                    param_ident.by_ref = None;
+                    param_ident.mutability = None;
+                    param_ident.subpat = None;
+
                     if param_ident.ident == fn_ident_string {
                         param_ident.ident = syn::Ident::new(
                             &format!("{}_", param_ident.ident),
